@@ -277,7 +277,7 @@ pub fn c11_inputs(ev: Ev, thorough: bool) -> Vec<String> {
         lists(&pool3, 9, 10, &mut ls);
         lists(&pool4, 6, 7, &mut ls);
     }
-    if ev == Ev::I64 {
+    if ev == Ev::I64 || ev == Ev::Num {
         // the ends of the range in every position: every sequence of length 1..3 (4 in the thorough tier)
         let ends: Vec<&str> = vec!["(-9223372036854775807-1)", "9223372036854775807", "(-9223372036854775807)", "4611686018427387904", "0", "2", "(-1)", "6"];
         lists(&ends, 1, if thorough { 4 } else { 3 }, &mut ls);
